@@ -20,11 +20,11 @@ from odcsim import core  # noqa: E402  pylint: disable=wrong-import-position
 # that one VERIF_SEED always explores the same runs; the wall cap only guards slow machines
 # (runs not executed are reported in the evidence file).
 BUDGET = {
-    "C06": {"quick": (240_000, 75, 500), "thorough": (4_000_000, 900, 5000)},
-    "C13": {"quick": (2_400, 80, 300), "thorough": (40_000, 900, 2000)},
-    "C18": {"quick": (16_000, 75, 500), "thorough": (400_000, 900, 5000)},
-    "C05": {"quick": (2_000, 85, 150), "thorough": (24_000, 1200, 1000)},
-    "C19": {"quick": (2_800, 85, 300), "thorough": (40_000, 1200, 2000)},
+    "C06": {"quick": (190_000, 80, 500), "thorough": (4_000_000, 900, 5000)},
+    "C13": {"quick": (1_100, 85, 300), "thorough": (40_000, 900, 2000)},
+    "C18": {"quick": (13_000, 80, 500), "thorough": (400_000, 900, 5000)},
+    "C05": {"quick": (1_700, 90, 150), "thorough": (24_000, 1200, 1000)},
+    "C19": {"quick": (2_600, 90, 300), "thorough": (40_000, 1200, 2000)},
 }
 
 
